@@ -146,6 +146,9 @@ func (p *Proc) Process(ctx context.Context, recs []opencdc.Record) []sdk.Process
 			return out
 		case "nil":
 			out = append(out, nil)
+		case "emptypos":
+			r.Position = nil
+			out = append(out, sdk.SingleRecord(r))
 		case "posrewrite":
 			r.Position = opencdc.Position("rewritten")
 			out = append(out, sdk.SingleRecord(r))
